@@ -18,7 +18,7 @@ package alert
 // The ordering the property states: level descending, then id ascending.
 //@ func (sortedStates).Less
 //@   opt strings=seq
-//@   props C09 C05
+//@   props C09
 //@   requires 0 <= i && i < len(e) && 0 <= j && j < len(e)
 //@   requires noNil(e)
 //@   pure
@@ -30,7 +30,7 @@ package alert
 //@   ensures result == len(e)
 
 //@ func (sortedStates).Swap
-//@   props C09 C05
+//@   props C09
 //@   requires 0 <= i && i < len(e) && 0 <= j && j < len(e)
 //@   modifies elems(e)
 //@   ensures e[i] == old(e[j]) && e[j] == old(e[i])
@@ -59,7 +59,7 @@ package alert
 //@       uf("sortperm", int, callid, i) != uf("sortperm", int, callid, j)
 
 //@ func (*Topic).updateEvent
-//@   props C09 C05
+//@   props C09
 //@   requires topicInv(t)
 //@   modifies t.sorted, elems(t.sorted), map(t.events), object(t.events[state.ID])
 //@   ensures topicInv(t)
@@ -70,7 +70,7 @@ package alert
 //@   ensures forall k string :: k != state.ID && has(t.events, k) ==> t.events[k] == old(t.events[k]) && *t.events[k] == old(*t.events[k])
 
 //@ func (*Topic).MaxLevel
-//@   props C09 C05
+//@   props C09
 //@   requires topicInv(t)
 //@   pure
 //@   ensures forall i int :: 0 <= i && i < len(t.sorted) ==> t.sorted[i].Level <= result
@@ -85,14 +85,14 @@ package alert
 
 // Expected to catch: a missing topic leaves t nil and t.updateEvent dereferences it.
 //@ func (*Topics).UpdateEvent
-//@   props C09 C05
+//@   props C09
 //@   requires s.topics != nil
 //@   requires has(s.topics, topicID) ==> s.topics[topicID] != nil && topicInv(s.topics[topicID])
 //@   ensures has(s.topics, topicID) && s.topics[topicID] != nil
 //@   opt split=3
 
 //@ func (*Topic).EventStates
-//@   props C09 C05
+//@   props C09
 //@   requires topicInv(t)
 //@   ensures forall i int :: 0 <= i && i < len(t.sorted) ==> (has(result, t.sorted[i].ID) <==> t.sorted[i].Level >= minLevel)
 //@   ensures forall i int :: 0 <= i && i < len(t.sorted) && t.sorted[i].Level >= minLevel ==> result[t.sorted[i].ID] == *t.sorted[i]
@@ -104,7 +104,7 @@ package alert
 //@     invariant forall k string :: has(events, k) ==> has(t.events, k) && t.events[k].Level >= minLevel
 
 //@ func (*Topic).EventState
-//@   props C09 C05
+//@   props C09
 //@   requires topicInv(t)
 //@   ensures result1 == has(t.events, event)
 //@   ensures result1 ==> result0 == *t.events[event]
